@@ -170,6 +170,6 @@ def election_cases(draw, tier):
 
 
 def subchecks():
-    return [HypSub("not_worse", cases, check, 9000, 80000),
+    return [HypSub("not_worse", cases, check, 14000, 150000),
             HypSub("large_multiplicities", election_cases, check, 500, 6000),
-            HypSub("corollaries", corollary_cases, check_corollary, 3000, 30000)]
+            HypSub("corollaries", corollary_cases, check_corollary, 6000, 60000)]
